@@ -32,7 +32,8 @@ def jobs(tier):
                     continue
                 out.append({"spec": spec, "algo": "mgm", "params": {"stop_cycle": k}, "props": PROPS, "unit_menu": (0.5,), "label": label})
                 if n == 2 or k <= 2:
-                    if not (q and n >= 3 and k == 2 and spec["mode"] == "max"):
+                    # (mgm2 on the ternary constraint with 2 cycles alone has ~240000 states: thorough only)
+                    if not (q and n >= 3 and k == 2 and (spec["mode"] == "max" or label.startswith("ternary"))):
                         out.append({"spec": spec, "algo": "mgm2", "params": {"stop_cycle": k}, "props": PROPS, "label": label})
                 for variant in ("A", "B", "C"):
                     if q and n >= 3 and (variant != "B" or k == 3):
